@@ -10,6 +10,7 @@ import (
 	"go/constant"
 	"go/token"
 	"go/types"
+	"golang.org/x/tools/go/ssa"
 	"regexp/syntax"
 	"sort"
 	"strconv"
@@ -309,6 +310,7 @@ func checkC06(c *Ctx) {
 	// ---- C06-LEX
 	c.checkOperatorLexable(regs)
 	c.checkSignContext(regs)
+	c.checkInfixSignFusion("C06-INF")
 	c.checkOperandStackEnds()
 	c.checkSelectorReparse()
 	// whether a - or + is a sign or an operator is decided by looking back through the lexer's ring of recent runes
@@ -827,4 +829,96 @@ func (c *Ctx) checkPrefixSignContext(rule string) {
 			"a minus sign directly after this prefix operator starts the operand",
 			fmt.Sprintf("the lexer does not treat %q (which emits %s) as a rune after which `-` starts a number: in %s-1 the minus is lexed as the operator symbol, the prefix operator wraps the function - and 1 stays behind as a separate element", string(r), prefix[r], string(r)))
 	}
+}
+
+// checkInfixSignFusion: C06-INF. The expression parser fuses a + or - token with
+// a following Inf into one signed literal (so that "- Inf" reads as -Inf in a
+// prefix form). Inside an infix expression that must not happen after an
+// operand: {x = 5 - Inf} subtracts. If the fusion exists in ParseExpression,
+// ParseInfix has to take a sign that follows an operand itself: a branch that
+// compares the peeked token's text with "-" and "+", consumes the token and
+// appends the operator symbol, without calling ParseExpression.
+func (c *Ctx) checkInfixSignFusion(rule string) {
+	pe := c.mustFn(rule, "Parser.ParseExpression")
+	pi := c.mustFn(rule, "Parser.ParseInfix")
+	mk := c.fn("Zlisp.MakeSymbol")
+	get := c.fn("Lexer.GetNextToken")
+	if pe == nil || pi == nil || mk == nil || get == nil {
+		return
+	}
+	signCmp := func(f *ssa.Function) map[string][]*ssa.BinOp {
+		out := map[string][]*ssa.BinOp{}
+		eachInstr(f, func(b *ssa.BasicBlock, i int, in ssa.Instruction) {
+			bo, ok := in.(*ssa.BinOp)
+			if !ok || bo.Op != token.EQL {
+				return
+			}
+			for _, v := range []ssa.Value{bo.X, bo.Y} {
+				if k, ok := v.(*ssa.Const); ok && k.Value != nil && k.Value.Kind() == constant.String {
+					s := constant.StringVal(k.Value)
+					if s == "-" || s == "+" {
+						out[s] = append(out[s], bo)
+					}
+				}
+			}
+		})
+		return out
+	}
+	// does ParseExpression fuse? a sign comparison followed by a float parse
+	fuses := false
+	cmpE := signCmp(pe)
+	if len(cmpE["-"]) > 0 {
+		eachInstr(pe, func(b *ssa.BasicBlock, i int, in ssa.Instruction) {
+			if call, ok := in.(*ssa.Call); ok {
+				if g := call.Call.StaticCallee(); g != nil && fnPkgPath(g) == "strconv" && g.Name() == "ParseFloat" {
+					for _, bo := range cmpE["-"] {
+						if bo.Block().Dominates(b) {
+							fuses = true
+						}
+					}
+				}
+			}
+		})
+	}
+	if !fuses {
+		c.ok(rule, "Parser.ParseExpression", "sign fused with Inf", pe.Pos(), "the expression parser does not fuse a sign token with a following Inf: nothing to keep out of infix expressions")
+		return
+	}
+	cmpI := signCmp(pi)
+	handled := false
+	var at token.Pos
+	if len(cmpI["-"]) > 0 && len(cmpI["+"]) > 0 {
+		for _, b := range pi.Blocks {
+			// a block under the comparisons that consumes the token and appends the symbol, and does not parse an expression
+			dom := false
+			for _, bo := range cmpI["-"] {
+				if bo.Block().Dominates(b) && bo.Block() != b {
+					dom = true
+				}
+			}
+			if !dom {
+				continue
+			}
+			takes, makes, parses := false, false, false
+			for _, in := range b.Instrs {
+				if ci, ok := in.(ssa.CallInstruction); ok {
+					switch ci.Common().StaticCallee() {
+					case get:
+						takes = true
+					case mk:
+						makes = true
+					case pe:
+						parses = true
+					}
+				}
+			}
+			if takes && makes && !parses {
+				handled = true
+				at = b.Instrs[0].Pos()
+			}
+		}
+	}
+	c.check(handled, rule, "Parser.ParseInfix", "a sign after an operand stays an operator", orPos(at, pi.Pos()),
+		"ParseInfix takes a + or - that follows an operand itself and appends the operator symbol; ParseExpression, which would fuse it with a following Inf, is not asked",
+		"ParseExpression fuses a + or - token with a following Inf into a signed literal, and ParseInfix hands every token to it: in {x = 5 - Inf} the operator never reaches the precedence parser, x is set to 5 and -Inf becomes a statement of its own")
 }
